@@ -9,6 +9,8 @@
 //      try must return (else the holder waits for ever -> watchdog) and must not succeed against the holder
 //   U  upgrade storm: k readers hold the lock together, then all call upgrade_to_writer at once while the remaining
 //      threads queue up as writers/readers
+//   R  (only with --cls R, queuing_rw_mutex only) class X sequences that may upgrade again after a downgrade inside one hold
+//      (upgrade -> downgrade -> upgrade). Everywhere else queuing_rw_mutex never sees that pattern; the other rw kinds see it in X.
 // Oracles (all certain, none timing based):
 //   * holder bookkeeping inside every section: per-thread slot flags (plain stores: no fence is added inside the
 //     critical section), in "heavy" rounds also atomic writer/reader counters, and two plain words a,b (writer: a=v+1 ..
@@ -48,8 +50,8 @@ template <> struct KT<tbb::rw_mutex>                 { static constexpr bool rw 
 template <> struct KT<tbb::speculative_spin_rw_mutex>{ static constexpr bool rw = true,  native = false; static constexpr int hook = 0;   static constexpr int id = K_SPEC_RW; };
 
 enum Iface { IF_ACQ = 0, IF_CTOR = 1, IF_NATIVE = 2 };
-enum Cls { C_X = 0, C_T = 1, C_U = 2 };
-static const char* cls_name[] = { "X", "T", "U" };
+enum Cls { C_X = 0, C_T = 1, C_U = 2, C_R = 3 };
+static const char* cls_name[] = { "X", "T", "U", "R" };
 enum Profile { P_HOT = 0, P_MIXED = 1, P_BLOCKING = 2, P_SLEEPY = 3, P_UPGRADES = 4 };
 static const char* profile_name[] = { "hot", "mixed", "blocking-only", "sleepy", "upgrade-heavy" };
 // what a thread is doing (published for the watchdog verdict)
@@ -59,7 +61,6 @@ static const char* state_name[] = { "harness-code", "acquire(write)", "acquire(r
 
 static constexpr int MAXT = 8;
 static bool g_light = false;                      // tsan: no global stamps, no atomic RMW inside sections
-static bool g_reupgrade = true;                   // may a hold contain upgrade -> downgrade -> upgrade (see the c08 check: debug assertion of queuing_rw_mutex)
 static bool g_heap_nodes = false;                 // asan: every scoped_lock lives in its own heap block, so a neighbour touching a released queue node is reported
 static std::atomic<uint64_t> g_seq{1};
 
@@ -87,7 +88,9 @@ struct alignas(64) ThreadShared {
          st_downgrades = 0, st_read_sections = 0, st_write_sections = 0, st_native = 0, st_ctor = 0, st_sleep_holds = 0, st_noop_trans = 0, st_txn = 0, st_reupgrades = 0;
 };
 
-struct RoundParams { int cls, nlocks, profile, nops, wpct, trypct; bool heavy; int holder_mode, ntries, upgraders; };
+// reupgrade: may one hold contain upgrade -> downgrade -> upgrade? Always, except on queuing_rw_mutex outside class R: there the
+// pattern strands a waiting upgrader (genuine defect, see class R), so it is kept apart from everything else.
+struct RoundParams { int cls, nlocks, profile, nops, wpct, trypct; bool heavy; int holder_mode, ntries, upgraders; bool reupgrade; };
 
 struct Batch {
     int kind = 0, nthreads = 2, nrounds = 0; uint64_t seed = 0; bool rw = false; int fifo_hook = 0;
@@ -103,7 +106,7 @@ struct Batch {
     std::atomic<int> round_failed{0};
     // round results (thread 0)
     long fifo_pairs = 0, fifo_requests = 0, fifo_no_witness = 0, storms = 0, storms_overlapping = 0;
-    long rounds_cls[3] = { 0, 0, 0 }, rounds_profile[5] = { 0, 0, 0, 0, 0 }, rounds_heavy = 0, rounds_two_locks = 0;
+    long rounds_cls[4] = { 0, 0, 0, 0 }, rounds_profile[5] = { 0, 0, 0, 0, 0 }, rounds_heavy = 0, rounds_two_locks = 0;
     explicit Batch(int n) : nthreads(n), bar(n) {}
 
     std::string describe() const {
@@ -308,7 +311,7 @@ template <class M> static void run_chain(Ctx& c, Lk<M>& lk, int lock, bool write
     if constexpr (RW) {
         for (int k = 0; k < ntrans; k++) {
             bool up = force_trans ? (force_trans == 1) : (w ? r.chance(1, 6) : r.chance(5, 6));
-            if (up && !w && downgraded && !g_reupgrade) break;
+            if (up && !w && downgraded && !c.rp.reupgrade) break;
             if (up) {
                 bool was_writer = w;
                 c.state(S_UPGRADE, lock); bool ok = lk.upgrade(); c.state(S_NONE, lock);
@@ -349,7 +352,8 @@ template <class M> static void run_x(Ctx& c) {
         if (KT<M>::native && x < 2) iface = IF_NATIVE; else if (!try_ && x < 4) iface = IF_CTOR;
         int ntrans = 0, force = 0;
         if (RW && iface != IF_NATIVE) {
-            if (rp.profile == P_UPGRADES) { ntrans = r.chance(9, 10) ? 1 + (int)r.below(2) : 0; }
+            if (rp.cls == C_R) ntrans = r.chance(9, 10) ? 2 + (int)r.below(3) : 0;
+            else if (rp.profile == P_UPGRADES) { ntrans = r.chance(9, 10) ? 1 + (int)r.below(2) : 0; }
             else if (r.chance(1, 2)) ntrans = 1 + (int)r.below(3);
         }
         M& m = lock_at<M>(c.B, lock);
@@ -456,12 +460,15 @@ static RoundParams make_params(Batch& B, uint64_t rseed) {
     p.cls = B.rw ? (x < 78 ? C_X : x < 86 ? C_T : C_U) : (x < 88 ? C_X : C_T);
     if (B.only_cls >= 0) p.cls = B.only_cls;
     if (p.cls == C_U && (!B.rw || B.nthreads < 2)) p.cls = C_X;
-    p.nlocks = (p.cls == C_X && r.chance(1, 4)) ? 2 : 1;
+    if (p.cls == C_R && B.kind != K_QUEUING_RW) p.cls = C_X;
+    p.reupgrade = B.kind != K_QUEUING_RW || p.cls == C_R;
+    p.nlocks = ((p.cls == C_X || p.cls == C_R) && r.chance(1, 4)) ? 2 : 1;
     bool sleeper = B.kind == K_MUTEX || B.kind == K_RW;
     unsigned y = (unsigned)r.below(100);
     if (sleeper) p.profile = y < 35 ? P_HOT : y < 60 ? P_MIXED : y < 75 ? P_BLOCKING : y < 90 ? P_SLEEPY : P_UPGRADES;
     else p.profile = y < 40 ? P_HOT : y < 62 ? P_MIXED : y < 84 ? P_BLOCKING : y < 87 ? P_SLEEPY : P_UPGRADES;
     if (p.profile == P_UPGRADES && !B.rw) p.profile = P_HOT;
+    if (p.cls == C_R && y < 70) p.profile = P_UPGRADES;
     if (B.only_profile >= 0) p.profile = B.only_profile;
     p.nops = p.profile == P_SLEEPY ? 2 + (int)r.below(4) : (r.chance(1, 6) ? 12 + (int)r.below(28) : 3 + (int)r.below(10));
     p.wpct = p.profile == P_UPGRADES ? (int)r.below(15) : (int)r.pick(std::vector<int>{ 15, 35, 50, 70, 90 });
@@ -561,7 +568,7 @@ template <class M> static void batch_thread(Batch& B, int t, Result& R) {
         me.sig = 0; me.writes[0] = me.writes[1] = 0; me.interesting = 0; me.reqs.clear(); me.ev.clear();
         {
             Ctx c(B, t, mix(mix(B.seed, 0x9000 + round), t));
-            switch (B.rp.cls) { case C_X: run_x<M>(c); break; case C_T: run_t<M>(c); break; default: run_u<M>(c); }
+            switch (B.rp.cls) { case C_X: case C_R: run_x<M>(c); break; case C_T: run_t<M>(c); break; default: run_u<M>(c); }
             me.sig = c.sig;
         }
         progress();
@@ -622,7 +629,7 @@ static void repro_reupgrade(Result& R, long rounds) {
         R.scenarios++; R.nontrivial++; R.signature(mix(0xBEEF, (uint64_t)u1 * 4 + u2 * 2 + ub + i * 8));
         R.stat("repro_reupgrade_rounds"); if (u2) R.stat("repro_second_upgrade_true"); if (!ub) R.stat("repro_waiting_upgrader_lost");
         if (bad.load() || vload(a) != 3 || vload(b) != 3)
-            R.violation("c08.X.reupgrade-repro", "upgrade -> downgrade -> upgrade with a waiting upgrader broke exclusion or the upgrade result (bad=" + std::to_string(bad.load()) + " a=" + std::to_string(a) + " b=" + std::to_string(b) + ")", "{\"repro\":\"reupgrade\"}");
+            R.violation("c08.R.reupgrade-repro", "upgrade -> downgrade -> upgrade with a waiting upgrader broke exclusion or the upgrade result (bad=" + std::to_string(bad.load()) + " a=" + std::to_string(a) + " b=" + std::to_string(b) + ")", "{\"repro\":\"reupgrade\"}");
         progress();
     }
 }
@@ -639,12 +646,12 @@ int main(int argc, char** argv) {
     Result& R = result();
     long cases = a.num("cases", 2000);
     g_light = (R.variant == "tsan") || a.has("light");
-    g_reupgrade = a.num("reupgrade", 1) != 0;
     g_heap_nodes = (R.variant == "asan") || a.has("heapnodes");
     int only_kind = -1; std::string ks = a.str("kind", "");
     for (int k = 0; k < K_N; k++) if (ks == kind_name[k]) only_kind = k;
     if (!ks.empty() && only_kind < 0) { fprintf(stderr, "unknown --kind %s\n", ks.c_str()); return 2; }
-    int only_cls = -1; std::string cs = a.str("cls", ""); for (int k = 0; k < 3; k++) if (cs == cls_name[k]) only_cls = k;
+    int only_cls = -1; std::string cs = a.str("cls", ""); for (int k = 0; k < 4; k++) if (cs == cls_name[k]) only_cls = k;
+    if (only_cls == C_R) only_kind = K_QUEUING_RW;
     int only_profile = -1; std::string ps = a.str("profile", ""); for (int k = 0; k < 5; k++) if (ps == profile_name[k]) only_profile = k;
     int maxthreads = (int)a.num("threads", MAXT); if (maxthreads > MAXT) maxthreads = MAXT; if (maxthreads < 2) maxthreads = 2;
     tbb::global_control gc(tbb::global_control::max_allowed_parallelism, 16);
@@ -655,6 +662,7 @@ int main(int argc, char** argv) {
     R.stat("processes", 1);
 
     WatchdogCfg wc;
+    if (only_cls == C_R) wc.hard_limit_s = 400;     // spinning waiters on a loaded machine need long to burn the spin-stall CPU budget
     watchdog_start(wc, [&](const HangInfo& hi) {
         Batch* B = g_batch.load();
         std::string d = "no progress for " + std::to_string(hi.stalled_for) + " s; ";
@@ -720,7 +728,7 @@ int main(int argc, char** argv) {
         R.stat(std::string("acquisitions.") + kind_name[kind], k_acq);
         R.stat(std::string("contended_or_refused.") + kind_name[kind], k_cont);
         R.stat(std::string("rounds.") + kind_name[kind], B->nrounds);
-        for (int i = 0; i < 3; i++) if (B->rounds_cls[i]) R.stat(std::string("rounds.class_") + cls_name[i], B->rounds_cls[i]);
+        for (int i = 0; i < 4; i++) if (B->rounds_cls[i]) R.stat(std::string("rounds.class_") + cls_name[i], B->rounds_cls[i]);
         for (int i = 0; i < 5; i++) if (B->rounds_profile[i]) R.stat(std::string("rounds.profile_") + profile_name[i], B->rounds_profile[i]);
         R.stat("rounds.heavy_monitor", B->rounds_heavy); R.stat("rounds.two_locks", B->rounds_two_locks);
         R.stat_max("max_threads", B->nthreads);
